@@ -478,12 +478,17 @@ class access:
         defaults = dict(is_rank_optim = False)
 
         def _get_node_targets(self, node, branch, /):
+            done = True
             for w in node.worlds():
                 pair = WorldPair(w, w)
                 if self[WorldIndex].has(branch, pair):
-                    self[FilterHelper].release(node, branch)
                     continue
+                done = False
                 yield adds(group(pair.tonode()), world=w)
+            if done:
+                # Release the node only when every one of its worlds has
+                # its loop: an access node has two.
+                self[FilterHelper].release(node, branch)
 
         def example_nodes(self):
             yield sdwnode(Atomic.first(), None, 0)
